@@ -294,6 +294,20 @@ def oracle(p):
                 if not di <= 1e-12:
                     fail("C11:StationaryVelocityFieldTransform:inverse-u-buffer",
                          f"inverse(update_buffers=True).u differs from expv(-scale) by {di:.3g}", case)
+                # the grid (and with it the align_corners convention) replaced after construction: grid_() in place, grid() on a copy
+                for how in ("grid_", "grid"):
+                    g_old = Grid(size=tuple(reversed(shape)), align_corners=not ac)
+                    t0 = StationaryVelocityFieldTransform(g_old, params=torch.zeros_like(v), scale=float(s), steps=k)
+                    t0.update()
+                    t1 = t0.grid_(grid) if how == "grid_" else t0.grid(grid)
+                    t1.data_(v.clone())
+                    t1.update()
+                    count(f"SVF-transform:{how}-switches-flag")
+                    du = maxdiff(t1.u, want)
+                    if t1.exp.align_corners != ac or not du <= tol[dt] * (1 + amp):
+                        fail(f"C11:StationaryVelocityFieldTransform:{how}:u-buffer",
+                             f"after {how}(grid with align_corners={ac}) on a transform built with align_corners={not ac}: exp.align_corners="
+                             f"{t1.exp.align_corners}, buffer u differs from the closed form by {du:.3g} (steps={k}, {dt})", case)
             except Exception as e:  # noqa
                 fail("C11:StationaryVelocityFieldTransform:raises", f"raised {type(e).__name__}: {e}", case)
 
